@@ -157,8 +157,9 @@ class World(object):
     def __init__(self, dt=1.0 / 64, mtu=1500, n_clients=1, order="cs", latency=1, chooser=None,
                  monitors=(), server_cfg=None, client_cfg=None, key_offset=0, fates=(), fate_filter=None,
                  pinned=True, start_time=1000.0, client_addrs=None, rnd_seed=0, token_source=None,
-                 connect_callback=False, autoconnect=True, server_send="twisted", root_index=None):
+                 connect_callback=False, autoconnect=True, server_send="twisted", root_index=None, hash_states=False):
         self.dt = dt
+        self.hash_states = hash_states
         self.mtu = mtu
         self.order = order
         self.latency = latency
@@ -320,7 +321,7 @@ class World(object):
             return
         if self.fates and (self.fate_filter is None or self.fate_filter(self, d)):
             opts = [("deliver #%d" % d.id, 0)] + [("%s #%d" % (f, d.id), 1) for f in self.fates]
-            c = self.chooser.choose("fate", opts)
+            c = self.chooser.choose("fate", opts, key=((lambda: self.canon() + (d.data, d.dst if isinstance(d.dst, str) else "c")) if self.hash_states else None))
             if c:
                 self.fault_free = False
                 f = self.fates[c - 1]
